@@ -88,8 +88,9 @@ Definition lut2_entry (i : N) : res N :=
   | OutOfFuel => OutOfFuel
   end.
 
+(* entries the builder loop `while i < lut2_built` did not reach keep the initial 0 *)
 Definition lut2_get (i : N) : res N :=
-  if i <? lut2_len then lut2_entry i else Panic 1.
+  if i <? lut2_len then (if i <? lut2_built then lut2_entry i else Ok 0) else Panic 1.
 
 (* the `while shift > 0` loop; state (config, hilbert, shift) *)
 Fixpoint e2_loop (fuel : nat) (zorder config hilbert : N) (shift : Z) : res (N * N * Z) :=
@@ -162,6 +163,17 @@ Fixpoint e3_loop (i : nat) (zorder config hilbert : N) : res N :=
 Definition encode_3d (x y z : N) (order : N) : res N :=
   if negb (order <? 64) || negb (x <? 2 ^ order) || negb (y <? 2 ^ order) || negb (z <? 2 ^ order) then Panic 5
   else e3_loop (N.to_nat order) (interleave3 x y z) 0 0.
+
+(* ------------------------------------------------- HilbertCurve::partition *)
+
+(* the accepted orders, as the property text states them *)
+Definition spec_max_order_2d : N := 32.
+Definition spec_max_order_3d : N := 21.
+
+(* the guard at the head of both `partition` impls:
+   `if self.order > MAX_ORDER { return Err(InvalidOrder { max: MAX_ORDER, actual: self.order }) }` *)
+Definition order_guard (max_order order : N) : res unit :=
+  if max_order <? order then Err (InvalidOrder max_order order) else Ok tt.
 
 (* ------------------------------------------------------------ nextafter *)
 
